@@ -387,10 +387,29 @@ func VH_c02_try_of_call_callunit() {
 	pv := zz.Int("panicvalue")
 	doPanic := zz.Bool("panics")
 	useErr := zz.Bool("panic.with.error")
+	// 0: panic(value/error), 1..4: genuine runtime errors
+	rtKind := 0
+	if doPanic && !useErr {
+		rtKind = zz.Choice("runtime.error.kind", 5)
+	}
+	var nilMap2 map[int]int
+	var nilPtr2 *int
+	var anyV2 any = "s"
+	short2 := []int{1}
 	body := func() int {
 		if doPanic {
 			if useErr {
 				panic(eC)
+			}
+			switch rtKind {
+			case 1:
+				nilMap2[1] = 1
+			case 2:
+				return short2[x&1+1]
+			case 3:
+				return *nilPtr2
+			case 4:
+				return anyV2.(int)
 			}
 			panic(pv)
 		}
@@ -402,12 +421,16 @@ func VH_c02_try_of_call_callunit() {
 			return
 		}
 		v, ok := panicValue(r)
-		zz.Assert(ok, l+": a panic becomes a Failure exposing Panic()")
+		zz.Assert(ok, l+": a panic - runtime errors included - becomes a Failure exposing Panic()")
 		if ok {
-			if useErr {
+			switch {
+			case useErr:
 				zz.Assert(v == any(eC), l+": panic value (error) preserved")
-			} else {
+			case rtKind == 0:
 				zz.Assert(v == any(pv), l+": panic value preserved")
+			default:
+				_, re := v.(runtime.Error)
+				zz.Assert(re, l+": the runtime error is exposed")
 			}
 		}
 	}
@@ -434,7 +457,7 @@ func VH_c02_try_of_call_callunit() {
 	})
 	if doPanic {
 		p, ok := r3.Failed().Get().(try.Panic)
-		zz.Assert(r3.IsFailure() && ok && (useErr || p.Panic() == any(pv)), "try.CallUnit: panic captured")
+		zz.Assert(r3.IsFailure() && ok && (useErr || rtKind != 0 || p.Panic() == any(pv)), "try.CallUnit: panic captured")
 	} else if retErr {
 		zz.Assert(r3.IsFailure() && r3.Failed().Get() == eB, "try.CallUnit: returned error unchanged")
 	} else {
